@@ -24,7 +24,7 @@ RULE = (
     "spaces around ::, indent width 1/3/4/8 per block, blank lines, trailing spaces, multi-line lists with arbitrary item "
     "indent, quotes around plain words, triple quotes, omitted ===END===, bare multi-word values, NAME[args] constructors). "
     "Oracle: emit(parse_with_warnings(lenient)) == emit(parse(canonical)) byte-for-byte; the same through "
-    "octave_write(lenient=true) file bytes [every 5th]; and the strict-profile recogniser (written from the property "
+    "octave_validate.canonical and octave_write(lenient=true) file bytes [every 5th]; and the strict-profile recogniser (written from the property "
     "statement) accepts the result. Non-trivial = a lenient spelling that uses >=2 distinct rewrite kinds at >=3 sites; "
     "distinct by lenient text."
 )
@@ -69,6 +69,10 @@ def oracle(doc, sp, text, info, with_tools=None):
                       f"lenient spelling canonicalises differently | used={info['used']} | lenient={text!r} | got={c1!r} | want={c0!r}"))
     _N["n"] += 1
     if with_tools if with_tools is not None else (_N["n"] % 5 == 0):
+        rv = tools.validate(content=text, schema="META")
+        if rv.get("status") == "success" and rv.get("canonical") != c0:
+            fails.append(("C03:unlisted:validate-no-convergence",
+                          f"octave_validate.canonical of a lenient spelling differs | used={info['used']} | lenient={text!r} | got={rv.get('canonical')!r} | want={c0!r}"))
         with scratch_dir() as root:
             path = os.path.join(root, "x.oct.md")
             w = tools.write(target_path=path, content=text, lenient=True)
